@@ -12,6 +12,10 @@
   table: pair-setup M5 (`_pairing_five`), pair-verify M3, add / remove pairing
   (`handle_pairings`, `State.remove_paired_client` incl. the last-admin rule), the snapshot
   request (the only `response.task`) and "any other request".
+  With the C16 repair a served remove-pairing also closes, after the response write and the
+  cipher install, every connection whose verified controller is no longer paired
+  (`_close_unpaired_sessions`); a closed connection delivers no further request and a deferred
+  response for it is dropped.
   Scheduling is left open: executor jobs and loop callbacks may run in any order and at any
   later time (the real loop is FIFO; every FIFO schedule is one of the schedules here).
   `safe_mode` is the default (False).
@@ -36,11 +40,14 @@ def removePairing (p : Pairings) (c : Client) : Pairings :=
   let q := p.filter fun e => e.1 ≠ c
   if q.any fun e => e.2 then q else []
 
-/-- the three `HAPResponse` attributes `_process_response` looks at -/
+/-- the four `HAPResponse` attributes `_process_response` looks at -/
 structure Resp where
   task : Bool
   sharedKey : Bool
   pairingChanged : Bool
+  /-- set by every served remove-pairing request (C16 repair): sessions of controllers that
+      are no longer paired are torn down once the response is written -/
+  pairingRemoved : Bool
 deriving DecidableEq, Repr
 
 inductive Req where
@@ -48,32 +55,34 @@ inductive Req where
   | pairSetupM5 (client : Client) (ok : Bool)
   /-- pair-verify M3; `ok` = the signature checks passed (response carries the shared key) -/
   | pairVerifyM3 (ok : Bool)
-  /-- `POST /pairings` add, on a connection whose verified controller is `session` -/
-  | addPairing (session : Option Client) (client : Client) (admin : Bool)
+  /-- `POST /pairings` add (judged against the verified controller of the connection) -/
+  | addPairing (client : Client) (admin : Bool)
   /-- `POST /pairings` remove -/
-  | removePairing (session : Option Client) (client : Client)
+  | removePairing (client : Client)
   /-- `POST /resource`: the only response with a pending task -/
   | resource
   | other
 deriving DecidableEq, Repr
 
-def plain : Resp := ⟨false, false, false⟩
+def plain : Resp := ⟨false, false, false, false⟩
 
 /-- `is_encrypted and state.is_admin(client_uuid)` -/
 def authorized (p : Pairings) : Option Client → Bool
   | none => false
   | some c => isAdmin p c
 
-/-- what the handler does to the pairing table and which response attributes it sets -/
-def handle (p : Pairings) : Req → Pairings × Resp
+/-- what the handler does to the pairing table and which response attributes it sets;
+    `sess` is the verified controller of the connection the request arrived on
+    (`handler.client_uuid` with `is_encrypted`) -/
+def handle (p : Pairings) (sess : Option Client) : Req → Pairings × Resp
   | .pairSetupM5 c ok => if ok then (addPairing p c true, { plain with pairingChanged := true }) else (p, plain)
   | .pairVerifyM3 ok => (p, { plain with sharedKey := ok })
-  | .addPairing s c adm => if authorized p s then (addPairing p c adm, plain) else (p, plain)
-  | .removePairing s c =>
-    if authorized p s then
+  | .addPairing c adm => if authorized p sess then (addPairing p c adm, plain) else (p, plain)
+  | .removePairing c =>
+    if authorized p sess then
       let wasPaired := !p.isEmpty
       let q := if isPaired p c then removePairing p c else p
-      (q, { plain with pairingChanged := q.isEmpty && wasPaired })
+      (q, { plain with pairingChanged := q.isEmpty && wasPaired, pairingRemoved := true })
     else (p, plain)
   | .resource => (p, { plain with task := true })
   | .other => (p, plain)
@@ -100,9 +109,29 @@ structure Sys where
   execQ : List Nat
   /-- `async_update_advertisement` callbacks queued in the loop -/
   loopQ : List Nat
+  /-- verified controller of each connection (`handler.client_uuid`); connections that are
+      not listed are unverified -/
+  sessions : List (Nat × Client)
+  /-- connections whose transport was closed by `_close_unpaired_sessions` -/
+  closed : List Nat
 
-def init (info : Info) (p : Pairings) : Sys :=
-  { info, paired := p, nextRid := 0, log := [], deferred := [], execQ := [], loopQ := [] }
+def init (info : Info) (p : Pairings) (sessions : List (Nat × Client)) : Sys :=
+  { info, paired := p, nextRid := 0, log := [], deferred := [], execQ := [], loopQ := [],
+    sessions, closed := [] }
+
+/-- `handler.client_uuid` of connection `conn` -/
+def sessionOf (s : Sys) (conn : Nat) : Option Client :=
+  (s.sessions.find? fun e => e.1 = conn).map fun e => e.2
+
+def isClosed (s : Sys) (conn : Nat) : Bool := s.closed.contains conn
+
+/-- `_close_unpaired_sessions`: the open connections whose verified controller is no longer in
+    `state.paired_clients` -/
+def unpairedConns (s : Sys) : List Nat :=
+  (s.sessions.map fun e => e.1).filter fun k =>
+    !isClosed s k && match sessionOf s k with
+      | some c => !isPaired s.paired c
+      | none => false
 
 /-- the record `AccessoryMDNSServiceInfo(accessory, state)` would carry now -/
 def record (s : Sys) : List (String × String) :=
@@ -113,12 +142,16 @@ def processResponse (s : Sys) (conn rid : Nat) (r : Resp) : Sys :=
   let s := if r.task then { s with deferred := s.deferred ++ [(conn, rid)] }
            else { s with log := Obs.write conn rid :: s.log }
   let s := if r.sharedKey then { s with log := Obs.cipher conn rid :: s.log } else s
+  let s := if r.pairingRemoved then { s with closed := s.closed ++ unpairedConns s } else s
   if r.pairingChanged then { s with execQ := s.execQ ++ [rid] } else s
 
 inductive Step where
-  /-- a complete request arrives on `conn`: `dispatch` + `_process_response` -/
+  /-- a complete request arrives on `conn`: `dispatch` + `_process_response`; nothing is
+      delivered on a connection that has been closed (asyncio: no `data_received` after
+      `transport.close()`) -/
   | request (conn : Nat) (r : Req)
-  /-- the task of the i-th deferred response completes (`_handle_response_ready`) -/
+  /-- the task of the i-th deferred response completes (`_handle_response_ready`: the response
+      is dropped if the transport is closing) -/
   | taskDone (i : Nat)
   /-- the executor runs its i-th pending `finish_pair` -/
   | execRun (i : Nat)
@@ -128,13 +161,16 @@ deriving DecidableEq, Repr
 
 def step (s : Sys) : Step → Sys
   | .request conn r =>
-    let (p, resp) := handle s.paired r
+    if isClosed s conn then s else
+    let (p, resp) := handle s.paired (sessionOf s conn) r
     let rid := s.nextRid
     processResponse { s with paired := p, nextRid := rid + 1 } conn rid resp
   | .taskDone i =>
     match s.deferred[i]? with
     | none => s
-    | some (conn, rid) => { s with deferred := s.deferred.eraseIdx i, log := Obs.write conn rid :: s.log }
+    | some (conn, rid) =>
+      if isClosed s conn then { s with deferred := s.deferred.eraseIdx i }
+      else { s with deferred := s.deferred.eraseIdx i, log := Obs.write conn rid :: s.log }
   | .execRun i =>
     match s.execQ[i]? with
     | none => s
@@ -157,7 +193,7 @@ def advertisedSf (initial : Option String) : List Obs → Option String
   | _ :: rest => advertisedSf initial rest
 
 /-- `sf` of the record registered by `async_start` -/
-def initialSf (info : Info) (p : Pairings) : Option String := lookup "sf" (record (init info p))
+def initialSf (info : Info) (p : Pairings) : Option String := lookup "sf" (record (init info p []))
 
 /-- variant with the refresh scheduled *before* the response write (what `finish_pair`'s doc
     comment warns against); used for the counterexample only -/
@@ -168,7 +204,7 @@ def processResponseEarly (s : Sys) (conn rid : Nat) (r : Resp) : Sys :=
 
 def stepEarly (s : Sys) : Step → Sys
   | .request conn r =>
-    let (p, resp) := handle s.paired r
+    let (p, resp) := handle s.paired (sessionOf s conn) r
     let rid := s.nextRid
     processResponseEarly { s with paired := p, nextRid := rid + 1 } conn rid resp
   | st => step s st
